@@ -365,12 +365,28 @@ pub fn date_constructor(
         interp.now_millis() as f64
     } else if args.len() == 1 {
         match args.first() {
-            Some(JsValue::Number(n)) => *n,
+            // TimeClip: beyond +-8.64e15 ms is an invalid date, fractions are dropped
+            Some(JsValue::Number(n)) => {
+                if n.is_finite() && n.abs() <= 8.64e15 {
+                    crate::prelude::math::trunc(*n) + 0.0
+                } else {
+                    f64::NAN
+                }
+            }
             Some(JsValue::String(s)) => parse_date_string(s.as_ref()),
             _ => f64::NAN,
         }
     } else {
         // new Date(year, month, day?, hours?, minutes?, seconds?, ms?)
+        // a component that is not a finite number makes the date invalid
+        if args.iter().take(7).any(|v| !v.to_number().is_finite()) {
+            if let JsValue::Object(obj) = &this {
+                obj.borrow_mut().exotic = ExoticObject::Date {
+                    timestamp: f64::NAN,
+                };
+            }
+            return Ok(Guarded::unguarded(this));
+        }
         let year = args.first().map(|v| v.to_number()).unwrap_or(f64::NAN) as i32;
         let month = args.get(1).map(|v| v.to_number()).unwrap_or(0.0) as i32;
         let day = args.get(2).map(|v| v.to_number()).unwrap_or(1.0) as i32;
@@ -405,6 +421,9 @@ pub fn date_utc(
     _this: JsValue,
     args: &[JsValue],
 ) -> Result<Guarded, JsError> {
+    if args.is_empty() || args.iter().take(7).any(|v| !v.to_number().is_finite()) {
+        return Ok(Guarded::unguarded(JsValue::Number(f64::NAN)));
+    }
     let year = args.first().map(|v| v.to_number()).unwrap_or(f64::NAN) as i32;
     let month = args.get(1).map(|v| v.to_number()).unwrap_or(0.0) as i32;
     let day = args.get(2).map(|v| v.to_number()).unwrap_or(1.0) as i32;
